@@ -89,7 +89,9 @@ class Check:
     def step_obs(self, s, prev):
         if 'classerr' in s:
             return ('classerr', s['classerr'])
-        return (s['cls'], s['err'], completed(s['tree']), s['tree'] == prev)
+        # the implementation reports ro.completed (the accessor); the model derives it from the document
+        return (s['cls'], s['err'], s.get('completed', completed(s['tree'])), s.get('repr_completed', completed(s['tree'])),
+                completed(s['tree']), s['tree'] == prev)
 
     def judge(self, case, steps):
         """the property oracle on the implementation's steps"""
@@ -99,12 +101,14 @@ class Check:
             if 'classerr' in s:
                 return None
             if done:
+                if s.get('completed') is not True:
+                    return 'step %d: a completed running order reports completed=%r' % (k, s.get('completed'))
                 if s['err'] != 'MosCompletedMergeError':
                     return 'step %d (%s) on a completed running order: %r, expected MosCompletedMergeError' % (k, s['cls'], s['err'])
                 if s['tree'] != prev:
                     return 'step %d (%s) changed a completed running order' % (k, s['cls'])
             elif s['cls'] == 'RunningOrderEnd':
-                if s['err'] or not completed(s['tree']):
+                if s['err'] or not completed(s['tree']) or s.get('completed') is not True or not s.get('repr_completed'):
                     return 'roDelete did not mark the running order completed (%r)' % s['err']
                 if rc_of(s['tree']) != rc_of(prev):
                     return 'roDelete changed the running-order content'
@@ -114,7 +118,7 @@ class Check:
                     return 'the completion record is not the roDelete that was sent'
                 done = True
             else:
-                if completed(s['tree']):
+                if completed(s['tree']) or s.get('completed') is not False:
                     return 'step %d (%s) marked the running order completed without a roDelete' % (k, s['cls'])
             # round trip of the current state
             text = X.tree_to_string(s['tree'])
